@@ -4,6 +4,7 @@ CONSTANTS
   NoBlock = NoBlock
   NoTx = NoTx
   VarBase = 2
+  PoolRefAhead = 2
   BeyondHeadStops = FALSE
   MaxNew = 4
   MaxSib = 3
